@@ -54,6 +54,7 @@ struct AllocSim
 	void reset_run();
 	void begin_op();                 // clears script and per-op counters
 	std::string site_of(const LiveRec &r) const;
+	std::string first_live_site() const;  // call-site chain of the OLDEST live allocation (by id: never by address, addresses differ between processes)
 	std::string describe_live(size_t max = 4) const;
 };
 extern AllocSim g_alloc;
